@@ -566,6 +566,10 @@ func (g *G) Inbound(label string, o InboundOpts) Inbound {
 			b.MintRecip = g.Bytes(label+"/mrb", 32) // high 12 bytes non-zero
 		case 1:
 			b.MintRecip = append([]byte{}, msg.Sender...)
+		case 2:
+			// an address written into the HIGH 20 bytes (right-padded): the recipient is still the low 20 bytes
+			b.MintRecip = make([]byte, 32)
+			copy(b.MintRecip, AcctBytes(g.Acct(label+"/mrr")))
 		default:
 			b.MintRecip = Pad32(AcctBytes(g.Acct(label + "/mra")))
 		}
@@ -581,6 +585,9 @@ func (g *G) Inbound(label string, o InboundOpts) Inbound {
 			b.Version = Pick(g, label+"/bver", []uint32{1, 1<<32 - 1})
 		}
 		b.MsgSender = g.B32(label+"/msgsender", o.Submitter)
+		if ms, ok := m.Msgrs[src]; ok && len(ms) == 32 && g.Pct(label+"/innermsgr", 15) {
+			b.MsgSender = append([]byte{}, ms...) // the burn body names the registered messenger (the envelope may not)
+		}
 		body, err := refcodec.EncodeBurn(b)
 		if err != nil {
 			panic(err)
@@ -1035,6 +1042,8 @@ type GenOpts struct {
 	MixedDenom   bool // in a fifth of the cases the minting denom has upper-case letters ("uUSDC")
 	ManyUsed     bool // an eighth of the cases start with 101..130 used nonces (more than one default query page)
 	ShortToken   bool // a third of the cases link (through genesis only) a pair whose remote token has 20 bytes
+	EmptyRoles   bool // in an eighth of the cases one to three of the non-owner role slots are empty strings in genesis
+	OtherLocal   bool // in a quarter of the cases a genesis pair maps a remote token to a local denom that is not the minting denom ("ueurc")
 	NoAttesters  bool // in a tenth of the cases the genesis lists no attester at all while the threshold is 1..3 (validation accepts that)
 	ManyRegistry bool // in a tenth of the cases one registry (attesters, limits, pairs, messengers) starts with 101..115 entries
 	AbsentOpt    bool // in a sixth of the cases optional genesis fields (flags, body size, counter, threshold) are left out
@@ -1129,6 +1138,16 @@ func (g *G) drawGenesis(o GenOpts) *GenSpec {
 	}
 	if rapid.IntRange(0, 2).Draw(t, "haslimit") == 0 {
 		gs.Limits = append(gs.Limits, LimitSpec{Denom: strings.ToLower(denom), Amount: rapid.SampledFrom([]string{"1", "1000", "1000000", "18446744073709551616"}).Draw(t, "limit")})
+	}
+	if o.EmptyRoles && rapid.IntRange(0, 7).Draw(t, "emptyroles") == 0 {
+		for slot := 1; slot <= 3; slot++ {
+			if rapid.Bool().Draw(t, fmt.Sprintf("norole%d", slot)) {
+				gs.NoRole = append(gs.NoRole, slot)
+			}
+		}
+	}
+	if o.OtherLocal && len(gs.Messengers) > 0 && rapid.IntRange(0, 3).Draw(t, "otherlocal") == 0 {
+		gs.Pairs = append(gs.Pairs, PairSpec{Domain: gs.Messengers[0].Domain, Token: Hex(Pad32(attest.Keccak([]byte("eurc"))[:20])), Local: "ueurc"})
 	}
 	if o.ManyRegistry && rapid.IntRange(0, 9).Draw(t, "manyreg") == 0 {
 		k := rapid.IntRange(101, 115).Draw(t, "manyregn")
